@@ -16,10 +16,10 @@ func (e *Exec) bankInit(st *State) {
 			st.Bal, st.Sup, st.Acc, st.Meta = b[0], b[1], b[2], b[3]
 			return
 		}
-		st.Bal = e.fresh("bank.balances0", balSort)
-		st.Sup = e.fresh("bank.supply0", supSort)
-		st.Acc = e.fresh("auth.accounts0", accSort)
-		st.Meta = e.fresh("bank.denomMeta0", metaSort)
+		st.Bal = e.fresh(st.Prefix+"bank.balances0", balSort)
+		st.Sup = e.fresh(st.Prefix+"bank.supply0", supSort)
+		st.Acc = e.fresh(st.Prefix+"auth.accounts0", accSort)
+		st.Meta = e.fresh(st.Prefix+"bank.denomMeta0", metaSort)
 		if st.Init != nil {
 			st.Init.bank = []*Term{st.Bal, st.Sup, st.Acc, st.Meta}
 		}
@@ -32,6 +32,12 @@ func sto(arr *Term, idx, v *Term) *Term        { return App("store", arr.S, arr,
 func (e *Exec) balance(st *State, addr, denom *Term) *Term {
 	e.bankInit(st)
 	b := sel(sel(st.Bal, addr, rowSort), denom, IntSort)
+	// the bank's own invariant on the pre-state (supply = sum of non-negative balances), for the cell read:
+	// no account held more than the total supply
+	if st.Init != nil && st.Init.bank != nil {
+		b0 := sel(sel(st.Init.bank[0], addr, rowSort), denom, IntSort)
+		e.assertPC(And(IGe(b0, IntI(0)), ILe(b0, sel(st.Init.bank[1], denom, IntSort))))
+	}
 	return b
 }
 
@@ -297,9 +303,10 @@ func init() {
 		pmT := e.W.typeByName("github.com/initia-labs/OPinit/x/ophost/types/hook", "PermsMetadata")
 		pcT := e.W.typeByName("github.com/initia-labs/OPinit/x/ophost/types/hook", "PortChannelID")
 		data := e.zero(pmT).(*StructV)
-		if !e.decideBool(App("json.hasPerm", BoolSort, meta)) {
-			return []Value{False, data}
-		}
+		// the decoded structure is a function of the bytes whether or not the strict decode accepts them:
+		// encoding/json fills the struct and reports e.g. an unknown field only at the end, so a caller that
+		// ignores the flag sees populated data (seed C19-r3)
+		ok := BoolT(e.decideBool(App("json.hasPerm", BoolSort, meta)))
 		n := App("json.nchan", IntSort, meta)
 		alts := []*Term{Eq(n, IntI(0)), Eq(n, IntI(1)), Not(Or(Eq(n, IntI(0)), Eq(n, IntI(1))))}
 		k := e.decide(alts)
@@ -316,7 +323,7 @@ func init() {
 		if k > 0 {
 			data.F[0] = &SliceV{A: e.newObj(arr, "permchannels"), Len: k, Cap: k}
 		}
-		return []Value{True, data}
+		return []Value{ok, data}
 	}
 }
 
